@@ -71,7 +71,8 @@ def gen_cases(ctx, rng):
         for _ in range(rng.range(8, 20)):
             src.append({"at": t, "n": rng.range(lim // 2 + 1, lim)})           # bulk, back to back (from the first byte on when i is even)
         src.append({"at": t + 600000 * L.MS, "close": True})
-        delays = [0] * rng.range(1, 3) + [rng.choice([50, 300, 800]) * L.MS] + [0] * 40      # one stall early in the transfer
+        # one stall early in the transfer - every fourth time longer than the 5 s after which other parts of the code give up
+        delays = [0] * rng.range(1, 3) + [(rng.choice([50, 300, 800]) if i % 4 else rng.choice([5500, 8000, 17000])) * L.MS] + [0] * 40
         cases.append({"dir": rng.choice(["upstream", "downstream"]), "chain": chain, "src": src, "sink_delay": delays,
                       "horizon": 36000 * 1000 * L.MS, "seed": 9500 + i})
         stats["receiver_stalls"] += 1
